@@ -55,9 +55,9 @@ theorem sliceable_needed :
     let a : Arr := .struct 2 none (.cons ⟨"c", false, []⟩ (.struct 1 none .nil) .nil)
     sliceable a = false ∧ 0 + 2 ≤ lenOf a ∧ decodeAt (sliceView a 0 2) 1 ≠ decodeAt a (0 + 1) := by decide
 
-/-- `sliceable` is implied by Arrow validity as spelled out for C03 (`Spec.WF`, which C03 `C03_wf` proves of every array
+/-- `sliceable` is implied by Arrow validity as spelled out for C03 (`Spec.WFS`, which C03 `C03_wfS` proves of every array
 the crate's builders return): every such array may be sliced with any window inside its bounds -/
-theorem WF_sliceable (f : Field) (a : Arr) (h : WF f a = true) : sliceable a = true :=
+theorem WF_sliceable (f : Field) (a : Arr) (h : WFS f a = true) : sliceable a = true :=
   Lemmas.C12.WF_sliceable f a h
 
 /-! ### slices of slices -/
@@ -74,19 +74,19 @@ theorem sliceable_slice (a : Arr) (o l : Nat) (h : o + l ≤ lenOf a) (hs : slic
     sliceable (sliceView a o l) = true :=
   Lemmas.C12.sliceable_slice a o l h hs
 
-/-- `Spec.WF` (C03) is the validity of BUILT arrays: bit offset 0, bitmaps of exactly ⌈len/8⌉ bytes, first offset 0,
-last offset = child length.  A slice is a VIEW (bit offset `o`, offsets not rebased, buffers shared), so `Spec.WF` is
+/-- `Spec.WFS` (C03) is the validity of BUILT arrays: bit offset 0, bitmaps of exactly ⌈len/8⌉ bytes, first offset 0,
+last offset = child length.  A slice is a VIEW (bit offset `o`, offsets not rebased, buffers shared), so `Spec.WFS` is
 not — and should not be — preserved by slicing; the view-level predicates that ARE preserved are `sliceable`
 (`sliceable_slice`), `new … = ok` (`new_slice`) and `physical` (`physical_slice`), together `view_hyps_slice` below:
-exactly the hypotheses of `decodeAt_slice` / `readAs_slice`, which `Spec.WF` implies as far as `sliceable` goes
+exactly the hypotheses of `decodeAt_slice` / `readAs_slice`, which `Spec.WFS` implies as far as `sliceable` goes
 (`WF_sliceable`). -/
 theorem WF_not_slice_invariant :
     let f : Field := .mk "c" .int32 true []
     let a : Arr := .prim .int32 (some ⟨[0b01], 0⟩) [1, 2]
     let g : Field := .mk "l" (.list (.mk "element" .int8 false [])) false []
     let b : Arr := .list false none [0, 1, 2] ⟨"element", false, []⟩ (.prim .int8 none [5, 6])
-    WF f a = true ∧ 1 + 1 ≤ lenOf a ∧ WF f (sliceView a 1 1) = false ∧
-    WF g b = true ∧ 1 + 1 ≤ lenOf b ∧ WF g (sliceView b 1 1) = false := by decide
+    WFS f a = true ∧ 1 + 1 ≤ lenOf a ∧ WFS f (sliceView a 1 1) = false ∧
+    WFS g b = true ∧ 1 + 1 ≤ lenOf b ∧ WFS g (sliceView b 1 1) = false := by decide
 
 /-- slices of slices read as the corresponding window of the original array -/
 theorem slice_slice (a : Arr) (o1 l1 o2 l2 i : Nat) (hi : i < l2) (h2 : o2 + l2 ≤ l1) (h1 : o1 + l1 ≤ lenOf a)
@@ -335,7 +335,7 @@ example : sliceable fslExample = true ∧ 1 + 3 ≤ lenOf fslExample ∧
     sliceView (sliceView fslExample 1 3) 1 2 = sliceView fslExample 2 2 := by decide
 
 /-- the example is a valid Arrow array of its field in the sense of C03 -/
-example : WF (.mk "c" (.fixedSizeList (.mk "element" (.struct (.cons (.mk "x" .int8 true [])
+example : WFS (.mk "c" (.fixedSizeList (.mk "element" (.struct (.cons (.mk "x" .int8 true [])
     (.cons (.mk "y" (.fixedSizeList (.mk "element" .boolean false []) 3) false []) .nil))) true []) 2) true []) fslExample = true := by
   decide
 
